@@ -36,7 +36,7 @@ def crit(strategy, param, c):
 
 
 def brute(strategy, param, d, y):
-    cands = [d.min() - 1.0] + sorted(set(d.tolist()))
+    cands = [-np.inf] + sorted(set(d.tolist()))          # (reject every pair: no assumption that d.min() − 1 < d.min())
     best = None
     for t in cands:
         v, ok = crit(strategy, param, counts(d, y, t))
@@ -78,6 +78,17 @@ def validation_set(rng, X, n, mode):
         if rng.rand() < 0.4:
             lens = lens * 1e-9                             # everything in very small units
         P = np.stack([np.tile(x0, (n, 1)), x0 + lens[:, None] * u], axis=1)
+    elif mode == 'huge':
+        # distances far above 2**53 (data in very large units: adding 1 to such a number does not change it), with the
+        # nearest pairs dissimilar, so that rejecting every pair is the best (often the only best) accuracy cut-off
+        u = rng.randn(dd); x0 = lo + (hi - lo) * rng.rand(dd)
+        lens = np.sort(rng.uniform(0.5, 2.0, size=n)) * 10.0 ** rng.uniform(17, 19)
+        P = np.stack([np.tile(x0, (n, 1)), x0 + lens[:, None] * u], axis=1)
+        y = np.where(rng.rand(n) < 0.25, 1, -1)
+        y[:max(2, n // 3)] = -1
+        y[-1] = 1
+        p = rng.permutation(n)
+        return np.ascontiguousarray(P[p]), y[p]
     else:  # grid: few base pairs, many duplicates
         base = np.round(lo + (hi - lo) * rng.rand(3, 2, dd))
         P = base[rng.randint(0, 3, size=n)]
@@ -118,16 +129,16 @@ def run(R, tier, seed, driver_ok):
     ninf = 0
     for si in range(nsets):
         name, est, X, y, args = ests[int(rng.randint(len(ests)))]
-        mode = ['distinct', 'ties', 'zeros', 'grid', 'diag', 'near', 'single'][si % 7]
+        mode = ['distinct', 'ties', 'zeros', 'grid', 'diag', 'near', 'single', 'huge'][si % 8]
         n = int(rng.randint(4, 24))
         if mode == 'single':
             # a validation set with ONE label only (all similar / all dissimilar), down to a single pair: accuracy is
             # defined for every threshold (accept all / reject all is optimal); F-beta is when positives exist; the two
             # rate-constrained criteria involve an undefined rate (0/0) and are not exercised here
             n = int(rng.choice([1, 2, 3, n]))
-            P, yv = validation_set(rng, X, max(n, 2), ['distinct', 'ties', 'zeros'][(si // 7) % 3])
+            P, yv = validation_set(rng, X, max(n, 2), ['distinct', 'ties', 'zeros'][(si // 8) % 3])
             P, yv = P[:n], yv[:n]
-            yv[:] = 1 if (si // 7) % 2 == 0 else -1
+            yv[:] = 1 if (si // 8) % 2 == 0 else -1
         else:
             P, yv = validation_set(rng, X, n, mode)
         n = len(yv)
@@ -159,7 +170,7 @@ def run(R, tier, seed, driver_ok):
                 continue
             if np.isinf(thr):
                 ninf += 1
-                thr_eff = float(d.min() - 1.0) if thr < 0 else float(d.max() + 1.0)
+                thr_eff = thr
             else:
                 thr_eff = thr
             got, ok = crit(strategy, param, counts(d, yv, thr_eff))
@@ -176,7 +187,7 @@ def run(R, tier, seed, driver_ok):
                 R.violation(key_of(strategy, d), f'{name}: {strategy} threshold_ {thr!r} attains {float(got):.6g} < optimum {float(best):.6g}', case)
             if driver_ok:
                 p = 0.0 if param is None else param
-                lines.append(f"calib {strategy} {n} {bits(d)} {' '.join(map(str, yv))} {f2b(p)} {f2b(thr_eff)}")
+                lines.append(f"calib {strategy} {n} {bits(d)} {' '.join(map(str, yv))} {f2b(p)} {f2b(thr_eff if np.isfinite(thr_eff) else (np.nextafter(d.min(), -np.inf) if thr_eff < 0 else np.nextafter(d.max(), np.inf)))}")
                 meta.append((best, got, ok, case))
                 if strategy == 'f_beta':
                     # implementation-layer model of the precision_recall_curve route (C16_code_fbeta_optimal)
@@ -203,7 +214,7 @@ def run(R, tier, seed, driver_ok):
                 warnings.simplefilter('ignore')
                 est.fit(P, yv, calibration_params=cp)
             d = est.pair_distance(P); thr = float(est.threshold_)
-            thr_eff = float(d.min() - 1.0) if np.isinf(thr) and thr < 0 else thr
+            thr_eff = thr
             param = kw.get('beta', kw.get('min_rate'))
             got, ok = crit(strategy, param, counts(d, yv, thr_eff)); best = brute(strategy, param, d, yv)
             case = {'est': name, 'via': 'fit', 'distances': d, 'labels': yv, 'strategy': strategy, 'param': param, 'threshold_': thr}
